@@ -63,6 +63,9 @@ def case(spec):
             # ------------------------------------------------ free + space per volume
             for v in s.volumes:
                 dv = '%d%s' % (drive, v.label or '')
+                if v.label == 'A' and rng.random() < 0.4:
+                    dv = str(drive)        # on an Opus disc the drive number alone means volume A
+                    res.add('opus_volume_A_by_bare_drive_number', 1)
                 ents = v.cat.all_entries()
                 if s.variant == 'watford':
                     res.seen('watford_halves', (bool(v.cat.entries), bool(v.cat.entries2)))
